@@ -275,9 +275,36 @@ def build_harness(pid, cfg, log):
     if not os.path.exists(lock) and os.path.exists("/repo/rust/Cargo.lock"):
         sh("cp /repo/rust/Cargo.lock %s" % lock)
     with BuildLock("cargo"):
+        # cargo decides freshness of the path dependency by file times; a tree restored with OLDER times (git stash,
+        # a symlink pointed back, a restored copy) would silently keep the previous library.  The content hash of the
+        # library sources decides instead: when it differs from the one recorded at the last build, the library crate
+        # is cleaned so that it is rebuilt from what /repo/rust contains now.
+        h = repo_src_hash()
+        stamp = os.path.join(HARNESS, "target", ".csl-src-hash")
+        have = open(stamp).read().strip() if os.path.exists(stamp) else ""
+        if have and have != h:
+            sh("timeout 600 cargo clean --offline -p cardano-serialization-lib 2>&1", cwd=HARNESS, timeout=700)
         rc, out = sh("timeout 3000 cargo build --offline --bin %s 2>&1" % name, cwd=HARNESS, timeout=3100)
+        if rc == 0:
+            os.makedirs(os.path.dirname(stamp), exist_ok=True)
+            open(stamp, "w").write(h)
     log.write("== cargo build --bin %s (rc=%d)\n%s\n" % (name, rc, out[-3000:]))
     return rc == 0
+
+
+def repo_src_hash():
+    """sha256 over the library's sources as the harness sees them (through the `repo` symlink)."""
+    root = os.path.join(ROOT, "repo", "rust")
+    hh = hashlib.sha256()
+    files = [os.path.join(root, "Cargo.toml"), os.path.join(root, "build.rs")]
+    for d, _, names in os.walk(os.path.join(root, "src")):
+        for n in names:
+            files.append(os.path.join(d, n))
+    for f in sorted(files):
+        if os.path.isfile(f):
+            hh.update(f[len(root):].encode()); hh.update(b"\0")
+            hh.update(open(f, "rb").read()); hh.update(b"\0")
+    return hh.hexdigest()
 
 
 def harness_exe(cfg, pid):
